@@ -597,7 +597,7 @@ func c20OpGenCase(t *rapid.T) *c20OpCase {
 func TestCheckOperatorDeploy(t *testing.T) {
 	t.Setenv("MS_REPOSITORY", "registry.local/default")
 	t.Setenv("MS_TAG", "v0.0.0-verif")
-	kit.Run(t, kit.Budget{Quick: 320, Thorough: 4000}, func(t *rapid.T) {
+	kit.Run(t, kit.Budget{Quick: 320, Thorough: 3000}, func(t *rapid.T) {
 		c := c20OpGenCase(t)
 		sig, msg, f, trace := c20OpJudge(c)
 		if sig == "harness-error" {
